@@ -1246,9 +1246,13 @@ def welltyped(T, v):
             return False
         return True
     if k == 'ANY':
+        # an ANY value is one complete TLV; what a definite-length TLV holds inside is opaque to the type
         if not isinstance(v, bytes):
             return False
         try:
+            h = parse_header(v, 0, len(v))
+            if h[3] is not None:
+                return h[4] + h[3] == len(v)
             tlv_tree(v)
         except ReadError:
             return False
